@@ -539,6 +539,72 @@ pub fn bl(
     Ok(())
 }
 
+/// The branch-conditional-and-link forms capstone reports as `bdnzl` (BO = 0b1000y:
+/// decrement CTR, branch if CTR != 0; capstone also prints BO = 0b10100, branch
+/// always, this way). BO is taken from the instruction word.
+pub fn bdnzl(
+    control_flow_graph: &mut ControlFlowGraph,
+    instruction: &capstone::Instr,
+) -> Result<(), Error> {
+    let detail = details(instruction)?;
+
+    let target = expr_const(
+        detail.operands[detail.op_count as usize - 1].imm() as u32 as u64,
+        32,
+    );
+    let bytes = instruction.bytes.get(0..4).ok_or("bdnzl: short instruction")?;
+    let word = u32::from_be_bytes([bytes[0], bytes[1], bytes[2], bytes[3]]);
+    let bo = (word >> 21) & 0x1f;
+    let decrements = bo & 0b00100 == 0;
+    if bo & 0b10000 == 0 || (decrements && bo & 0b00010 != 0) {
+        return Err(Error::Custom(format!("Unhandled BO for bdnzl: {}", bo)));
+    }
+
+    let ctr = scalar("ctr", 32);
+
+    let head_index = {
+        let block = control_flow_graph.new_block()?;
+        if decrements {
+            block.assign(
+                ctr.clone(),
+                Expression::sub(ctr.clone().into(), expr_const(1, 32))?,
+            );
+        }
+        // LR <- CIA + 4 whether or not the branch is taken
+        block.assign(scalar("lr", 32), expr_const(instruction.address + 4, 32));
+        block.index()
+    };
+
+    let true_index = {
+        let block = control_flow_graph.new_block()?;
+        block.branch(target);
+        block.index()
+    };
+
+    let terminating_index = { control_flow_graph.new_block()?.index() };
+
+    if decrements {
+        control_flow_graph.conditional_edge(
+            head_index,
+            true_index,
+            Expression::cmpneq(ctr.clone().into(), expr_const(0, 32))?,
+        )?;
+        control_flow_graph.conditional_edge(
+            head_index,
+            terminating_index,
+            Expression::cmpeq(ctr.into(), expr_const(0, 32))?,
+        )?;
+    } else {
+        control_flow_graph.unconditional_edge(head_index, true_index)?;
+    }
+    control_flow_graph.unconditional_edge(true_index, terminating_index)?;
+
+    control_flow_graph.set_entry(head_index)?;
+    control_flow_graph.set_exit(terminating_index)?;
+
+    Ok(())
+}
+
 pub fn bclr(
     control_flow_graph: &mut ControlFlowGraph,
     instruction: &capstone::Instr,
